@@ -270,67 +270,96 @@ Definition extract_return_type (returns : option expr) (body : list stmt) : opti
   end.
 
 (** ** undeclared.rs: the body scan's raw material *)
-(** [collect_local_variables]: name -> line of its LAST binding in visiting order
-    ([HashMap::insert] overwrites); newest first, so lookup finds the newest *)
+(** [collect_local_variables]: name -> line of its FIRST binding in visiting order (since
+    fix: [entry().or_insert]); lookup finds the first entry of the list *)
 Definition bind (names : list string) (line : N) (acc : list (string * N)) : list (string * N) :=
+  fold_left (fun a n => if existsb (fun kv => String.eqb (fst kv) n) a then a else a ++ [(n, line)]) names acc.
+(** before the fix: [HashMap::insert] overwrote, the LAST binding line was kept *)
+Definition bind_old (names : list string) (line : N) (acc : list (string * N)) : list (string * N) :=
   map (fun n => (n, line)) names ++ acc.
 
-Fixpoint locals_stmt (st : stmt) (acc : list (string * N)) : list (string * N) :=
-  match st with
-  | SAssign targets _ line => bind (flat_map names_from_expr targets) line acc
-  | SAnnAssign target _ line => bind (names_from_expr target) line acc
-  | SAugAssign target _ line => bind (names_from_expr target) line acc
-  | SFor _ target _ b _ line =>
-      fold_left (fun a s => locals_stmt s a) b (bind (names_from_expr target) line acc)
-  | SWhile _ b _ => fold_left (fun a s => locals_stmt s a) b acc
-  | SIf _ b o => fold_left (fun a s => locals_stmt s a) o (fold_left (fun a s => locals_stmt s a) b acc)
-  | SWith _ items b line =>
-      fold_left (fun a s => locals_stmt s a) b
-        (fold_left (fun a it => match snd it with Some v => bind (names_from_expr v) line a | None => a end) items acc)
-  | STry b _ o f =>
-      fold_left (fun a s => locals_stmt s a) f
-        (fold_left (fun a s => locals_stmt s a) o (fold_left (fun a s => locals_stmt s a) b acc))
-  | _ => acc
-  end.
+Section Locals.
+  Variable bindf : list string -> N -> list (string * N) -> list (string * N).
+  Variable fixed : bool.     (* the fix also looks into except handlers and loop else-blocks *)
+  Fixpoint locals_stmt (st : stmt) (acc : list (string * N)) : list (string * N) :=
+    match st with
+    | SAssign targets _ line => bindf (flat_map names_from_expr targets) line acc
+    | SAnnAssign target _ line => bindf (names_from_expr target) line acc
+    | SAugAssign target _ line => bindf (names_from_expr target) line acc
+    | SFor _ target _ b o line =>
+        let a1 := fold_left (fun a s => locals_stmt s a) b (bindf (names_from_expr target) line acc) in
+        if fixed then fold_left (fun a s => locals_stmt s a) o a1 else a1
+    | SWhile _ b o =>
+        let a1 := fold_left (fun a s => locals_stmt s a) b acc in
+        if fixed then fold_left (fun a s => locals_stmt s a) o a1 else a1
+    | SIf _ b o => fold_left (fun a s => locals_stmt s a) o (fold_left (fun a s => locals_stmt s a) b acc)
+    | SWith _ items b line =>
+        fold_left (fun a s => locals_stmt s a) b
+          (fold_left (fun a it => match snd it with Some v => bindf (names_from_expr v) line a | None => a end) items acc)
+    | STry b hs o f =>
+        let a1 := fold_left (fun a s => locals_stmt s a) b acc in
+        let a2 := if fixed then fold_left (fun a h => fold_left (fun a s => locals_stmt s a) h a) hs a1 else a1 in
+        fold_left (fun a s => locals_stmt s a) f (fold_left (fun a s => locals_stmt s a) o a2)
+    | _ => acc
+    end.
+End Locals.
 Definition collect_locals (body : list stmt) : list (string * N) :=
-  fold_left (fun a s => locals_stmt s a) body [].
+  fold_left (fun a s => locals_stmt bind true s a) body [].
+Definition collect_locals_old (body : list stmt) : list (string * N) :=
+  fold_left (fun a s => locals_stmt bind_old false s a) body [].
 
-Fixpoint names_expr (e : expr) : list bname :=
-  match e with
-  | EName id l c ec => [mk_bname id l c ec]
-  | ECall f args _ => names_expr f ++ flat_map names_expr args
-  | EAttr v _ => names_expr v
-  | EBinOp _ l r => names_expr l ++ names_expr r
-  | EUnaryOp o => names_expr o
-  | ECompare l cs => names_expr l ++ flat_map names_expr cs
-  | ESubscript v sl => names_expr v ++ names_expr sl
-  | EList elts => flat_map names_expr elts
-  | ETuple elts => flat_map names_expr elts
-  | EDict keys values =>
-      flat_map (fun k => match k with Some k' => names_expr k' | None => [] end) keys
-      ++ flat_map names_expr values
-  | EAwait v => names_expr v
-  | _ => []
-  end.
+(** [visit_expr_for_names]: the Name nodes the scan looks at, in visiting order *)
+Section Names.
+  Variable fixed : bool.   (* the fix added keyword arguments, boolean operands, set elements *)
+  Fixpoint names_expr (e : expr) : list bname :=
+    match e with
+    | EName id l c ec => [mk_bname id l c ec]
+    | ECall f args kws =>
+        names_expr f ++ flat_map names_expr args
+        ++ (if fixed then flat_map (fun kv => match kv with (_, v) => names_expr v end) kws else [])
+    | EAttr v _ => names_expr v
+    | EBinOp _ l r => names_expr l ++ names_expr r
+    | EUnaryOp o => names_expr o
+    | EBoolOp vs => if fixed then flat_map names_expr vs else []
+    | ESet vs => if fixed then flat_map names_expr vs else []
+    | ECompare l cs => names_expr l ++ flat_map names_expr cs
+    | ESubscript v sl => names_expr v ++ names_expr sl
+    | EList elts => flat_map names_expr elts
+    | ETuple elts => flat_map names_expr elts
+    | EDict keys values =>
+        flat_map (fun k => match k with Some k' => names_expr k' | None => [] end) keys
+        ++ flat_map names_expr values
+    | EAwait v => names_expr v
+    | _ => []
+    end.
+  Definition names_opt (o : option expr) : list bname := match o with Some e => names_expr e | None => [] end.
 
-Definition names_opt (o : option expr) : list bname := match o with Some e => names_expr e | None => [] end.
+  (** [visit_stmt_for_names]; the fix added annotated assignments, try blocks and the
+      else-blocks of loops *)
+  Fixpoint names_stmt (st : stmt) : list bname :=
+    match st with
+    | SExpr v => names_expr v
+    | SAssign _ v _ => names_expr v
+    | SAugAssign _ v _ => names_expr v
+    | SAnnAssign _ v _ => if fixed then names_opt v else []
+    | SReturn v => names_opt v
+    | SIf t b o => names_expr t ++ flat_map names_stmt b ++ flat_map names_stmt o
+    | SWhile t b o => names_expr t ++ flat_map names_stmt b ++ (if fixed then flat_map names_stmt o else [])
+    | SFor _ _ it b o _ => names_expr it ++ flat_map names_stmt b ++ (if fixed then flat_map names_stmt o else [])
+    | SWith _ items b _ => flat_map (fun it => names_expr (fst it)) items ++ flat_map names_stmt b
+    | SAssert t m => names_expr t ++ names_opt m
+    | STry b hs o f =>
+        if fixed then flat_map names_stmt b ++ flat_map (fun h => flat_map names_stmt h) hs
+                      ++ flat_map names_stmt o ++ flat_map names_stmt f
+        else []
+    | _ => []
+    end.
+End Names.
 
-Fixpoint names_stmt (st : stmt) : list bname :=
-  match st with
-  | SExpr v => names_expr v
-  | SAssign _ v _ => names_expr v
-  | SAugAssign _ v _ => names_expr v
-  | SReturn v => names_opt v
-  | SIf t b o => names_expr t ++ flat_map names_stmt b ++ flat_map names_stmt o
-  | SWhile t b _ => names_expr t ++ flat_map names_stmt b
-  | SFor _ _ it b _ _ => names_expr it ++ flat_map names_stmt b
-  | SWith _ items b _ => flat_map (fun it => names_expr (fst it)) items ++ flat_map names_stmt b
-  | SAssert t m => names_expr t ++ names_opt m
-  | _ => []
-  end.
-
-Definition body_item (body : list stmt) (declared : list string) (fn : string) (fn_line : N) : item :=
-  IBody (mk_body declared (collect_locals body) fn fn_line (flat_map names_stmt body)).
+Definition body_item_with (fixed : bool) (body : list stmt) (declared : list string) (fn : string) (fn_line : N) : item :=
+  IBody (mk_body declared (if fixed then collect_locals body else collect_locals_old body) fn fn_line
+                 (flat_map (names_stmt fixed) body)).
+Definition body_item := body_item_with true.
 
 (** ** analyzer.rs [visit_stmt] *)
 Section Visit.
